@@ -125,6 +125,11 @@ def main(run):
                 other = [Q(fr(v)) for v in gen_stream(rnd, n, rnd.choice(KINDS))]
                 w2, w3, e2, e3 = WelfordTracker(), WelfordTracker(), ExponentialSmoothingTracker(alpha), ExponentialSmoothingTracker(alpha)
                 s1 = s2 = Fraction(0)
+                if rnd.random() < 0.5:      # reading a fresh tracker (before the first update) must not change it
+                    _ = (w.var, w.std, w.mean, w.get(), w(), e.get(), e(), w.N, e.N)
+                    run.ok(kind="pure-read-before-first-update")
+                    if not (w.N == 0 and e.N == 0 and fr(w.var) == 0 and fr(w.mean) == 0 and fr(e.get()) == 0):
+                        run.violation("empty-stream", f"fresh trackers after reads: N={w.N},{e.N} var={w.var!r} mean={w.mean!r}", {"case": "reads before first update"})
                 rec.take()
                 full_every = 1 if n <= 64 else max(1, n // 16)
                 tag = f"{kind} n={n} alpha={alpha!r}"
@@ -140,6 +145,8 @@ def main(run):
                     wpaths.add(rec.take())
                     e.update(v)
                     epaths.add(rec.take())
+                    if rnd.random() < 0.2:  # reads interleaved with updates are pure
+                        _ = (w.var, w.std, w.mean, e.get())
                     w2.update(other[i]); w3.update(a * v + b * other[i])
                     e2.update(other[i]); e3.update(a * v + b * other[i])
                     rec.take()
